@@ -465,6 +465,9 @@ SYMBOLIC_HASH |= {"packaging.specifiers", "packaging.requirements"}
 UNICODE_STRIP["packaging.specifiers"] = ("PySet.str_strip", X5_IMPORT)
 # `iter(xs)` of an owned list is accepted where the iterator is handed back at once (checked in `x5_call`)
 CONSUMERS |= {"iter"}
+# `map(f, xs)` of an owned list is accepted where the map is consumed at once by a builtin consumer (checked in `x5_rewrite`;
+# the run-time materialises it anyway)
+CONSUMERS |= {"map"}
 # member classes whose `__hash__` is Python code that can raise: building a set of them evaluates it for every element
 X5_HASHED_MEMBERS = {("packaging.specifiers", "Specifier")}
 # --- x5 end -----------------------------------------------------------------------------------------------------------
@@ -3138,6 +3141,13 @@ class Fn:
         for n in _walk_scope(self.node.body, into_exprs=True):
             for c in ast.iter_child_nodes(n):
                 self.x5_parents[c] = n
+        for n in _walk_scope(self.node.body, into_exprs=True):
+            if isinstance(n, ast.Call) and isinstance(n.func, ast.Name) and n.func.id == "map" and "map" not in self.locals \
+                    and any(isinstance(a, ast.Name) and a.id in getattr(self, "mutated", ()) for a in n.args):
+                p = self.x5_parents.get(n)
+                if not (isinstance(p, ast.Call) and isinstance(p.func, ast.Name) and n in p.args
+                        and p.func.id in (CONSUMERS - {"iter", "map", "enumerate", "reversed"})):
+                    raise Unsupported("map() over a list that is mutated in place, not consumed at once")
         for n in list(_walk_scope(self.node.body, into_exprs=True)):
             holders = [n] if isinstance(n, ast.For) else list(n.generators) if isinstance(
                 n, (ast.ListComp, ast.GeneratorExp, ast.SetComp, ast.DictComp)) else []
